@@ -21,13 +21,18 @@ MANIFEST = dict(
          "have been passed; the result is (C[I2], I2) with I2 = where(first[C] == second) on the unconverted atleast_1d inputs, C the positions "
          "of one left-side searchsorted(first, second) mapped through the argsort when the array is not presorted; the positions are clamped "
          "(== size -> size-1) before they subscript anything unless the path has established max(second) <= max(first). match_multi delegates "
-         "to match. De-duplication scans (unique, rem_dup): an index-space type system (Idx = index into the input, Pos = position in sorted "
+         "to match. The search is element-wise in its probes (searchsorted(a, v[j]) = searchsorted(a, v)[j], likewise the clamp; p[argsort(p)] = identity, "
+         "out[p] = y[p] into a fresh array = y): after these laws the positions compared with the second array must be the search result in the second "
+         "array's own order, a residual data-dependent permutation is a violation. De-duplication scans (unique, rem_dup): an index-space type system (Idx = index into the input, Pos = position in sorted "
          "order; s = a.argsort() maps Pos to Idx, a[s] is Pos-indexed) over expression descriptors decides that every subscript is applied in "
          "the matching space, that the scan visits all positions after the seed, that the running value / largest flag are seeded from sorted "
          "position 0, replaced at a new run and (flag) when a larger flag is seen together with the kept position, that every run is recorded "
          "exactly once in one container holding one index space with its first entry from sorted position 0, and that the returned indices "
          "are in Idx space. A loop-free unique is decided on the term of the returned array (sorter[0] followed by sorter[where(sorted[1:] != "
-         "sorted[:-1]) + 1]).",
+         "sorted[:-1]) + 1], or sorter[mask] with a mask that is true at position 0 and at value changes). Paths of a scanning function that return "
+         "a computed array before the loop are decided the same way and removed from the scan's view. Run boundaries must come from comparing "
+         "neighbouring values; a sign / zero test of their arithmetic difference is accepted only on paths whose dtype.kind tests restrict the "
+         "elements to kinds for which it is exact (ordered test: unsigned, float; zero test: integers).",
     note="Not decided: completeness for all arrays (numpy.searchsorted/argsort/unique semantics trusted); NaN handling.",
     technique="static analysis: path-wise symbolic execution to normalised terms (match, vectorised unique), index-space typing over "
               "expression descriptors with CFG control dependence (scan loops)",
@@ -191,6 +196,8 @@ def t_size(x):
         return t_size(x[2])
     if h in ("clamp", "ss"):
         return t_size(x[1] if h == "clamp" else x[3])
+    if h == "arange":
+        return x[1]
     if h in ("tuple", "list"):
         return K(len(x) - 1)
     if h == "conv" and x[1] in ("astype", "dtype"):
@@ -217,11 +224,48 @@ def t_take(base, idx):
             return base[1:][idx[1]]
     if h == "shape" and idx == K(0):
         return t_size(base[1])
+    if h == "argsort" and idx == ("argsort", base):
+        return ("arange", t_size(base))         # p[argsort(p)] is the identity for a permutation p (= an argsort)
+    if idx[0] == "arange" and idx[1] == t_size(base) and h in _SIZED:
+        return base                             # x[arange(x.size)] is x
     if h == "take" and is_indexlike(base[2]):
         return t_take(base[1], t_take(base[2], idx))
     if h == "concat" and idx == K(0) and len(base) > 1 and base[1][0] in ("list", "tuple") and len(base[1]) > 1:
         return base[1][1]
     return ("take", base, idx)
+
+
+_SIZED = ("ss", "clamp", "argsort", "a1d", "asarr", "take")
+
+
+def _gathered(p):
+    """(core, j) when p is core[j] for a search result (clamped or not) `core` and an index array j; (p, None) otherwise"""
+    if p[0] == "take" and p[1][0] in ("ss", "clamp") and is_indexlike(p[2]):
+        return p[1], p[2]
+    return p, None
+
+
+def _regather(core, j):
+    return core if j is None else ("take", core, j)
+
+
+def _alloc_n(t):
+    """element count of a fresh 1-d array term"""
+    n = t[2]
+    if n[0] in ("tuple", "list") and len(n) == 2:
+        n = n[1]
+    if n[0] == "shape":
+        n = t_size(n[1])
+    return n
+
+
+def is_perm_term(j):
+    """an index array that is a data-dependent permutation: an argsort, or such permutations applied to each other"""
+    if not isinstance(j, tuple) or not j:
+        return False
+    if j[0] == "argsort":
+        return True
+    return j[0] == "take" and is_perm_term(j[1]) and is_perm_term(j[2])
 
 
 def _minus1_of(val, arrs):
@@ -267,20 +311,28 @@ def t_setitem(base, idx, val):
     # high-end clamp: p[p == n] = n - 1   /   p[where(p == n)] = n - 1
     c = idx[1] if idx[0] == "where0" else idx
     a = _is_at_end(c, base)
-    if a is not None and base[0] == "ss":
+    core, j = _gathered(base)           # the clamp is element-wise: clamp(p[j]) = clamp(p)[j]
+    if a is not None and core[0] == "ss":
         if _minus1_of(val, None) == a:
-            return ("clamp", base, a)
+            return _regather(("clamp", core, a), j)
         return ("badclamp", base, a, val)
+    # scatter through a permutation into a fresh array of the same size: out[p] = y[p] gives y, out[p] = arange(n) gives the inverse of p
+    if base[0] == "alloc" and idx[0] == "argsort" and _alloc_n(base) == t_size(idx):
+        if val[0] == "take" and val[2] == idx and val[1][0] in _SIZED and t_size(val[1]) == t_size(idx):
+            return val[1]
+        if val == ("arange", t_size(idx)):
+            return ("argsort", idx)
     return ("setitem", base, idx, val)
 
 
 def t_minimum(a, b):
     for p, v in ((a, b), (b, a)):
         arr = _minus1_of(v, None)
-        if arr is not None and p[0] in ("ss", "clamp"):
-            return ("clamp", p, arr) if p[0] == "ss" else p
+        core, j = _gathered(p)
+        if arr is not None and core[0] in ("ss", "clamp"):
+            return _regather(("clamp", core, arr), j) if core[0] == "ss" else p
     for p, v in ((a, b), (b, a)):
-        if p[0] == "ss" and is_scalar(v):
+        if _gathered(p)[0][0] == "ss" and is_scalar(v):
             return ("badclamp", p, None, v)
     return ("call", "minimum", (a, b))
 
@@ -288,14 +340,18 @@ def t_minimum(a, b):
 def t_where3(c, a, b):
     # where(p == n, n-1, p) / where(p < n, p, n-1)
     for p, v, test in ((b, a, _is_at_end), (a, b, _is_below_end)):
-        if p[0] == "ss":
+        core, j = _gathered(p)
+        if core[0] == "ss":
             arr = test(c, p)
             if arr is not None and _minus1_of(v, None) == arr:
-                return ("clamp", p, arr)
+                return _regather(("clamp", core, arr), j)
     return ("where3", c, a, b)
 
 
 def t_ss(a, v, side, sorter):
+    if v[0] == "take" and is_indexlike(v[2]):
+        # the search is element-wise in its probes: searchsorted(a, v[j]) = searchsorted(a, v)[j]
+        return t_take(t_ss(a, v[1], side, sorter), v[2])
     if sorter is None or sorter == NONE:
         if a[0] == "take" and a[2] == ("argsort", a[1]):
             return ("ss", a[1], a[2], v, side)
@@ -337,9 +393,14 @@ class _Return(Exception):
         self.line = line
 
 
+class _Loop(Exception):
+    def __init__(self, line):
+        self.line = line
+
+
 class Path:
     def __init__(self, kind, value, facts, events, line):
-        self.kind = kind        # 'return' | 'raise'
+        self.kind = kind        # 'return' | 'raise' | 'loop' (the path reaches a loop; only with stop_at_loops)
         self.value = value
         self.facts = facts      # [(atomic term, truth, seq)]
         self.events = events    # [(kind, term..., line, seq)]
@@ -365,9 +426,10 @@ _ARRAYISH = ("a1d", "asarr", "argsort", "ss", "clamp", "where0", "take", "alloc"
 class SX:
     MAXPATHS = 400
 
-    def __init__(self, funcs, keep_calls=()):
+    def __init__(self, funcs, keep_calls=(), stop_at_loops=False):
         self.funcs = funcs              # module-level name -> ast.FunctionDef
         self.keep_calls = set(keep_calls)   # module functions that are not inlined
+        self.stop_at_loops = stop_at_loops  # a path ends (kind 'loop') where it reaches a loop statement of the function itself
         self.reset([])
 
     def reset(self, decisions):
@@ -397,6 +459,8 @@ class SX:
                 paths.append(Path("return", r.val, list(self.facts), list(self.events), r.line))
             except _Raise as r:
                 paths.append(Path("raise", r.exc, list(self.facts), list(self.events), r.line))
+            except _Loop as r:
+                paths.append(Path("loop", NONE, list(self.facts), list(self.events), r.line))
             dec = list(self.decisions)
             while dec and dec[-1] is False:
                 dec.pop()
@@ -542,6 +606,8 @@ class SX:
                     raise Unsupported("del of a non-name at line %d" % st.lineno)
         elif isinstance(st, (ast.FunctionDef, ast.ClassDef)):
             fr.env[st.name] = self.new(("opaque", "def " + st.name))
+        elif isinstance(st, (ast.For, ast.While)) and self.stop_at_loops and self.depth == 0:
+            raise _Loop(st.lineno)
         else:
             raise Unsupported("%s at line %d" % (type(st).__name__, st.lineno))
 
@@ -756,7 +822,7 @@ class SX:
             side = args[2] if len(args) > 2 else kw.get("side", K("left"))
             sorter = args[3] if len(args) > 3 else kw.get("sorter")
             r = t_ss(a0, args[1], side, sorter)
-            self.events.append(("ss", r, e.lineno, self._seq()))
+            self.events.append(("ss", _gathered(r)[0], e.lineno, self._seq()))
             return r
         if name == "where" and not kw:
             if len(args) == 1:
@@ -784,6 +850,8 @@ class SX:
             return t_size(a0)
         if name in ("zeros", "empty", "ones") and args:
             return ("alloc", name, a0)
+        if name in ("zeros_like", "empty_like", "ones_like") and args:
+            return ("alloc", name[:-5], t_size(a0))
         if name == "diff" and len(args) == 1 and not kw:
             return ("diff", a0)
         if name in ("concatenate", "hstack") and len(args) == 1 and a0[0] in ("tuple", "list") and set(kw) <= {"axis"}:
@@ -818,7 +886,7 @@ class SX:
             side = args[1] if len(args) > 1 else kw.get("side", K("left"))
             sorter = args[2] if len(args) > 2 else kw.get("sorter")
             r = t_ss(b, a0, side, sorter)
-            self.events.append(("ss", r, e.lineno, self._seq()))
+            self.events.append(("ss", _gathered(r)[0], e.lineno, self._seq()))
             return r
         if name == "clip" and (args or kw):
             lo = a0 if args else kw.get("min", NONE)
@@ -977,28 +1045,123 @@ SL_NEXT = ("slice", K(1), NONE, NONE)
 SL_PREV = ("slice", NONE, K(-1), NONE)
 
 
-def neighbour_cmp(t, a):
-    """t compares every element of `a` in sorted order (base 'sorted') or as given (base 'raw') with its successor:
-    returns (relation prev?next in {'lt','le','eq','ne','gt','ge'}, base) or None"""
-    if not (isinstance(t, tuple) and t[0] == "cmp" and t[1] in ("lt", "le", "eq", "ne")):
-        return None
+def _neighbours(a):
     s = ("argsort", a)
-    for base, nxt, prv in (("sorted", ("take", a, ("take", s, SL_NEXT)), ("take", a, ("take", s, SL_PREV))),
-                           ("raw", ("take", a, SL_NEXT), ("take", a, SL_PREV))):
-        if (t[2], t[3]) == (prv, nxt):
-            return t[1], base
-        if (t[2], t[3]) == (nxt, prv):
-            return {"lt": "gt", "le": "ge"}.get(t[1], t[1]), base
-    if t[1] in ("lt", "le", "eq", "ne"):
-        for base, x in (("sorted", ("take", a, s)), ("raw", a)):
-            d = ("diff", x)
-            if t[2] == K(0) and t[3] == d and t[1] in ("lt", "le"):       # 0 < diff
-                return t[1], base
-            if t[3] == K(0) and t[2] == d and t[1] in ("lt", "le"):       # diff < 0
-                return {"lt": "gt", "le": "ge"}[t[1]], base
-            if t[1] in ("eq", "ne") and {t[2], t[3]} == {K(0), d}:
-                return t[1], base
+    return (("sorted", ("take", a, ("take", s, SL_NEXT)), ("take", a, ("take", s, SL_PREV)), ("take", a, s)),
+            ("raw", ("take", a, SL_NEXT), ("take", a, SL_PREV), a))
+
+
+def _diff_of(t, a):
+    """t is the array of differences successor - predecessor (sign +1) or predecessor - successor (sign -1) of `a` in sorted order / as
+    given: (base, sign) or None"""
+    if not isinstance(t, tuple) or not t:
+        return None
+    for base, nxt, prv, whole in _neighbours(a):
+        if t == ("diff", whole) or t == ("binop", "-", nxt, prv):
+            return base, 1
+        if t == ("binop", "-", prv, nxt) or t == ("neg", ("diff", whole)):
+            return base, -1
     return None
+
+
+_REV = {"lt": "gt", "le": "ge", "gt": "lt", "ge": "le"}
+
+
+def neighbour_test(t, a):
+    """t tests every element of `a` in sorted order (base 'sorted') or as given (base 'raw') against its successor: returns
+    (relation prev?next in {'lt','le','eq','ne','gt','ge'}, base, via) or None; via is 'cmp' when the two values are compared with each other and
+    'diff' when the test looks at the sign / zero-ness of their arithmetic difference"""
+    if not isinstance(t, tuple) or not t:
+        return None
+    d = _diff_of(t, a)
+    if d is not None:                       # the differences used as truth values
+        return "ne", d[0], "diff"
+    if not (t[0] == "cmp" and t[1] in ("lt", "le", "eq", "ne")):
+        return None
+    for base, nxt, prv, whole in _neighbours(a):
+        if (t[2], t[3]) == (prv, nxt):
+            return t[1], base, "cmp"
+        if (t[2], t[3]) == (nxt, prv):
+            return _REV.get(t[1], t[1]), base, "cmp"
+    for zero, other, zero_left in ((t[2], t[3], True), (t[3], t[2], False)):
+        if zero not in (K(0), K(0.0), K(False)):
+            continue
+        d = _diff_of(other, a)
+        if d is None:
+            continue
+        base, sign = d
+        if t[1] in ("eq", "ne"):
+            return t[1], base, "diff"
+        rel = t[1] if zero_left else _REV[t[1]]         # 0 < next-prev: prev < next;  next-prev < 0: prev > next
+        return (rel if sign > 0 else _REV[rel]), base, "diff"
+    return None
+
+
+def neighbour_cmp(t, a):
+    """(relation, base) of neighbour_test, however the test is computed"""
+    r = neighbour_test(t, a)
+    return None if r is None else r[:2]
+
+
+def _same_elements(x, a):
+    """x holds elements of the array a (a itself, a normalised / re-ordered / sub-selected a): same element type"""
+    while isinstance(x, tuple) and x:
+        if x == a:
+            return True
+        if x[0] in ("take", "a1d", "asarr", "sorted"):
+            x = x[1]
+        else:
+            return False
+    return False
+
+
+_ALL_KINDS = frozenset("biufcmMOSUV")
+
+
+def _kind_set(t, a):
+    """the set of numpy dtype kinds for which the condition t on the element type of `a` holds, None when t is not such a condition"""
+    def is_kind(x):
+        return isinstance(x, tuple) and x[0] == "attr" and x[2] == "kind" and x[1][0] == "dtype" and _same_elements(x[1][1], a)
+
+    def strs(x):
+        if is_const(x) and isinstance(x[1], str):
+            return set(x[1])
+        if isinstance(x, tuple) and x and x[0] in ("tuple", "list") and all(is_const(y) and isinstance(y[1], str) and len(y[1]) == 1 for y in x[1:]):
+            return {y[1] for y in x[1:]}
+        return None
+    if not isinstance(t, tuple) or not t:
+        return None
+    if t[0] == "cmp" and t[1] in ("eq", "ne", "in", "notin"):
+        for l, r in ((t[2], t[3]), (t[3], t[2])):
+            if is_kind(l) and strs(r) is not None and (t[1] in ("eq", "ne") and is_const(r) and len(r[1]) == 1 or (t[1] in ("in", "notin") and l == t[2])):
+                ks = strs(r) & _ALL_KINDS
+                return ks if t[1] in ("eq", "in") else _ALL_KINDS - ks
+        return None
+    if t[0] in ("or", "and"):
+        parts = [_kind_set(x, a) for x in t[1:]]
+        if any(p_ is None for p_ in parts):
+            return None
+        out = set(parts[0])
+        for p_ in parts[1:]:
+            out = (out | p_) if t[0] == "or" else (out & p_)
+        return out
+    if t[0] == "not":
+        k = _kind_set(t[1], a)
+        return None if k is None else _ALL_KINDS - k
+    return None
+
+
+def element_kinds(facts, a):
+    """the dtype kinds the elements of `a` can have on a path with these facts (a set), or None when a test on the element type is not understood"""
+    kinds = set(_ALL_KINDS)
+    for t, v, _ in facts:
+        if not any(isinstance(x, tuple) and x and x[0] == "dtype" and _same_elements(x[1], a) for x in subterms(t)):
+            continue
+        k = _kind_set(t, a)
+        if k is None:
+            return None
+        kinds &= k if v else (_ALL_KINDS - k)
+    return kinds
 
 
 def fact_kind(t, v, a1, a2, pres):
@@ -1217,6 +1380,16 @@ def _match_path(V, fi, p, pres, a1, a2):
         if c == (t_take(s, cand) if mapped else cand):
             found = cand
     if found is None:
+        # the positions are element k <-> probe k: a search over re-ordered probes must be brought back to the order of the second array
+        inner = c[2] if (mapped and c[0] == "take" and c[1] == s) else (None if mapped else c)
+        core, j = _gathered(inner) if inner is not None else (None, None)
+        if j is not None and core in (pc, p0) and y == a2:
+            V.add("positions-aligned-with-second-array" + tag, False if is_perm_term(j) else None,
+                  "entry k of the search result is the position found for element k of the second array (a search over re-ordered probes p = v[j] is "
+                  "undone by scattering, out[j] = found, or by gathering with the inverse permutation); found the positions re-ordered by `%s` and "
+                  "compared with the second array in its own order, so positions are attached to the wrong probes and genuine matches are dropped"
+                  % short(j), ws)
+            return
         if any(isinstance(t, tuple) and t and t[0] == "badclamp" for t in subterms(c)):
             V.add("high-end-clamp" + tag, False, "positions equal to the array size are clamped to size-1 before use; found %s" % short(c), w)
         elif mapped and c in (pc, p0):
@@ -1225,6 +1398,8 @@ def _match_path(V, fi, p, pres, a1, a2):
             V.add(key, None, msg + "; the subscript of the first array is %s" % short(c), w)
         return
     V.add(key, True, msg, w)
+    V.add("positions-aligned-with-second-array" + tag, True, "entry k of the search result is the position found for element k of the second array "
+          "(searchsorted(a, v[j]) = searchsorted(a, v)[j]; re-orderings of the probes cancel)", ws)
     # -- first indices -------------------------------------------------------
     kf = "first-indices" + tag
     mf = "indices into the first array are the found %s filtered by the equality test" % ("positions mapped through the sorter" if mapped else "positions")
@@ -1258,9 +1433,102 @@ def _match_path(V, fi, p, pres, a1, a2):
 def dedup_rules(chk, mod, fi, narr):
     loops = [x for x in walk_no_nested(fi.node) if isinstance(x, (ast.For, ast.While, ast.AsyncFor))]
     if loops:
+        early = _early_exits(fi.node)
+        if early:
+            # paths that return an array computed without entering the scan are decided on the returned term; the scan rules then look at
+            # the function without these branches (their definitions never reach the loop)
+            _early_paths(chk, mod, fi, narr, early)
+            fi = FuncInfo(fi.qualname, fi.module, None, _without(fi.node, early), fi.path)
         _scan_dedup(chk, fi, narr)
     else:
         _vector_dedup(chk, mod, fi, narr)
+
+
+def _terminates(stmts):
+    if not stmts:
+        return False
+    last = stmts[-1]
+    if isinstance(last, (ast.Return, ast.Raise)):
+        return True
+    return isinstance(last, ast.If) and _terminates(last.body) and _terminates(last.orelse)
+
+
+def _has_loop(stmts):
+    return any(isinstance(x, (ast.For, ast.While, ast.AsyncFor)) for st in stmts for x in ast.walk(st))
+
+
+def _computes(stmts):
+    """does the branch compute what it returns (assignments, or a returned expression with a subscript / call) -- as opposed to returning
+    constants and arguments (the one-element shortcut the scan rules know)"""
+    for st in stmts:
+        for x in ast.walk(st):
+            if isinstance(x, (ast.Assign, ast.AugAssign, ast.AnnAssign, ast.NamedExpr)):
+                return True
+            if isinstance(x, ast.Return) and x.value is not None and any(isinstance(y, (ast.Subscript, ast.Call)) for y in ast.walk(x.value)):
+                return True
+    return False
+
+
+def _early_exits(fn):
+    """[(index in fn.body, 'body' | 'orelse')]: top-level `if` statements before the scan loop with a loop-free arm that always returns / raises
+    and computes its result"""
+    out = []
+    for k, st in enumerate(fn.body):
+        if _has_loop([st]):
+            break
+        if isinstance(st, ast.If):
+            for arm in ("body", "orelse"):
+                b = getattr(st, arm)
+                if _terminates(b) and _computes(b) and any(isinstance(x, ast.Return) for y in b for x in ast.walk(y)):
+                    out.append((k, arm))
+                    break
+    return out
+
+
+def _without(fn, early):
+    """copy of fn in which each early-exit `if` is replaced by its other arm (what the paths that go on to the loop execute)"""
+    fn = copy.deepcopy(fn)
+    arms = dict(early)
+    body = []
+    for k, st in enumerate(fn.body):
+        if k in arms:
+            body.extend(st.orelse if arms[k] == "body" else st.body)
+        else:
+            body.append(st)
+    fn.body = body or [ast.Pass()]
+    return fn
+
+
+def _early_paths(chk, mod, fi, narr, early):
+    q = fi.qualname + "::early-exit"
+    spans = []
+    for k, arm in early:
+        b = getattr(fi.node.body[k], arm)
+        spans.append((b[0].lineno, max(getattr(x, "end_lineno", b[0].lineno) or b[0].lineno for x in b)))
+    a = ("param", fi.params[0])
+    vflag = "values" if "values" in fi.params else (fi.params[narr] if len(fi.params) > narr else None)
+    V = Verdicts()
+    for vals in (False, True):
+        try:
+            paths = SX(mod.defs, stop_at_loops=True).run(fi.node, {vflag: K(vals)} if vflag else {})
+        except Unsupported as e:
+            chk.ob("R06.1", q + "::recognised", None, fi.where(fi.node.body[early[0][0]]),
+                   "%s returns before its scan on some paths; they could not be executed symbolically (%s)" % (fi.name, e))
+            return
+        rets = [p for p in paths if p.kind == "return" and any(lo <= p.line <= hi for lo, hi in spans)]
+        for p in rets:
+            w = "%s:%s" % (fi.where().rsplit(":", 1)[0], p.line)
+            r = p.value
+            if narr != 1:
+                V.add("recognised", None, "a path of the flagged de-duplication that returns without scanning is not a form this check knows; found %s" % short(r), w)
+                continue
+            if r[0] == "take" and r[1] == a:
+                r = r[2]                 # the values at the kept indices
+            _vector_kept(V, r, a, w)
+            boundary_tests(V, r, a, p.facts, w)
+        if not vflag:
+            break
+    V.emit(chk, "R06.1", q)
 
 
 # -- loop-free (vectorised) form: decided on the terms of the returned arrays --------------------------------------------------
@@ -1286,6 +1554,7 @@ def _vector_dedup(chk, mod, fi, narr):
             if r[0] == "take" and r[1] == a:
                 r = r[2]                 # the values at the kept indices
             _vector_kept(V, r, a, w)
+            boundary_tests(V, r, a, p.facts, w)
         if not vflag:
             break
     V.emit(chk, "R06.1", q)
@@ -1297,9 +1566,9 @@ def _pos_runstarts(t, a):
     if not isinstance(t, tuple) or not t:
         return None
     m = t[1] if t[0] == "where0" else t         # x[where(mask)[0]] and x[mask] are the same selection
-    if neighbour_cmp(m, a) == ("ne", "sorted"):
+    if _change_mask(m, a) == "sorted":
         return "offby1"
-    if neighbour_cmp(m, a) == ("ne", "raw"):
+    if _change_mask(m, a) == "raw":
         return "unsorted"
     if t[0] == "binop" and t[1] == "+" and t[3] == K(1) and _pos_runstarts(t[2], a) in ("offby1", "unsorted"):
         return "rest" if _pos_runstarts(t[2], a) == "offby1" else "unsorted"
@@ -1307,11 +1576,72 @@ def _pos_runstarts(t, a):
         first = t[1][1] if t[1][0] == "arr" else t[1]
         if first in (("list", K(0)), ("tuple", K(0))) and _pos_runstarts(t[2], a) == "rest":
             return "all"
-        if first in (("list", K(True)), ("tuple", K(True))) and neighbour_cmp(t[2], a) == ("ne", "sorted"):
+        if first in (("list", K(True)), ("tuple", K(True))) and _change_mask(t[2], a) == "sorted":
             return "all"             # boolean mask over sorted positions
+    if t[0] == "setitem" and t[1][0] == "alloc" and t[2] == SL_NEXT and _alloc_n(t[1]) == t_size(a) and t[1][1] in ("ones", "zeros"):
+        # a boolean mask over all sorted positions whose entries 1.. are the value changes; entry 0 is what the mask was created with
+        c = _change_mask(t[3], a)
+        if c == "sorted":
+            return "all" if t[1][1] == "ones" else "rest"
+        if c == "raw":
+            return "unsorted"
     if t[0] == "where0":
-        return "all" if _pos_runstarts(t[1], a) == "all" and t[1][0] == "concat" else None
+        return "all" if _pos_runstarts(t[1], a) == "all" and t[1][0] in ("concat", "setitem") else None
     return None
+
+
+def _change_mask(m, a):
+    """m is true exactly where an element differs from its predecessor, looking at `a` in sorted order ('sorted') or as given ('raw').  In
+    ascending order predecessor < successor says the same as predecessor != successor.  Whether the test is computed soundly for every
+    element type is a separate rule (boundary_tests)"""
+    r = neighbour_test(m, a)
+    if r is None:
+        return None
+    if r[0] == "ne" or (r[0] == "lt" and r[1] == "sorted"):
+        return r[1]
+    return None
+
+
+def boundary_tests(V, r, a, facts, w):
+    """run boundaries are found by comparing neighbouring values with each other.  The sign / zero test of their arithmetic difference says the
+    same only for some element types: next - prev > 0 is exact for unsigned integers and floats (for signed integers the difference of two
+    distant values wraps round and comes out negative, so two distinct values count as one run); next - prev != 0 is exact for integers only
+    (inf - inf is nan, and strings cannot be subtracted at all).  Such a test is accepted on paths that have restricted the element type
+    accordingly"""
+    key = "run-boundaries-by-comparison"
+    msg = "a run ends where neighbouring values in sorted order differ, decided by comparing the values themselves (or by the sign / zero test of " \
+          "their difference only for element types where that is exact)"
+    tests = []
+    for t in subterms(r):
+        nt = neighbour_test(t, a)
+        if nt is not None and nt[2] == "diff" and not (isinstance(t, tuple) and _diff_of(t, a) is not None and any(
+                x is not t and isinstance(x, tuple) and x and x[0] == "cmp" and t in x[2:] for x in subterms(r))):
+            tests.append((t, nt))
+    if not tests:
+        V.add(key, True, msg, w)
+        return
+    kinds = element_kinds(facts, a)
+    for t, (rel, base, via) in tests:
+        exact = set("uf") if rel in ("lt", "le", "gt", "ge") else set("iu")
+        what = "an ordered test of a difference" if rel in ("lt", "le", "gt", "ge") else "a zero test of a difference"
+        if kinds is None:
+            V.add(key, None, msg + "; `%s` is %s and a test on the element type on this path is not understood" % (short(t), what), w)
+        elif kinds <= exact:
+            V.add(key, True, msg, w)
+        elif not (kinds - exact) & set("ifSUO"):
+            V.add(key, None, msg + "; `%s` is %s reached by element kinds '%s', for which this check has no rule" % (short(t), what, "".join(sorted(kinds - exact))), w)
+        else:
+            wrong = "".join(sorted(kinds - exact))
+            why = []
+            if "i" in kinds - exact:
+                why.append("signed integers: the difference of two distant values wraps round, changes sign, and two distinct values are taken for one run "
+                           "(a distinct value gets no index)")
+            if "f" in kinds - exact:
+                why.append("floats: inf - inf is nan, so equal infinities are taken for distinct values")
+            if set("SUO") & (kinds - exact):
+                why.append("strings cannot be subtracted")
+            V.add(key, False, msg + "; `%s` is %s reached by element kinds '%s' (exact only for '%s') -- %s"
+                  % (short(t), what, wrong, "".join(sorted(exact)), "; ".join(why) or "not exact for these kinds"), w)
 
 
 def _vector_kept(V, r, a, w):
